@@ -132,19 +132,14 @@ func judgeNet(rng *hx.Rng, n int, o netOutcome, mustFinish bool) string {
 
 func isKind(m proto.Message, k string) bool { return strings.HasSuffix(fmt.Sprintf("%T", m), k) }
 
-func genC04Net(rng *hx.Rng, tier string, w *hx.Writer) {
-	reps := 1
-	if tier == "thorough" {
-		reps = 6
-	}
-	sidN := 0
-	nextSid := func() string { sidN++; return fmt.Sprintf("%x", new(big.Int).Add(big.NewInt(int64(sidN)), new(big.Int).SetBytes(rng.Bytes(8)))) }
-	type sched struct {
-		name   string
-		delay  func(n int) []time.Duration
-		policy func(ids [][]byte) func(from, to []byte, m proto.Message, attempt int) doubles.Delivery
-	}
-	scheds := []sched{
+type c04Sched struct {
+	name   string
+	delay  func(n int) []time.Duration
+	policy func(ids [][]byte) func(from, to []byte, m proto.Message, attempt int) doubles.Delivery
+}
+
+func c04Scheds(rng *hx.Rng) []c04Sched {
+	scheds := []c04Sched{
 		{"plain", nil, nil},
 		{"start-skew", func(n int) []time.Duration {
 			d := make([]time.Duration, n)
@@ -210,31 +205,88 @@ func genC04Net(rng *hx.Rng, tier string, w *hx.Writer) {
 			}
 		}},
 	}
+	return scheds
+}
+
+// one networked session in a child process (a panic of a key-generation goroutine kills the child
+// and is attributed to this schedule): arg name=<schedule>,n=<members>,seed=<n>
+// prints "<verdict>|<finished>|<seconds>"
+func subC04Net(arg string) string {
+	a := parseArg(arg)
+	rng := hx.NewRng(uint64(atoi(a["seed"])) + 404)
+	n := atoi(a["n"])
+	for _, sc := range c04Scheds(rng) {
+		if sc.name != a["name"] {
+			continue
+		}
+		var delays []time.Duration
+		if sc.delay != nil {
+			delays = sc.delay(n)
+		}
+		sid := fmt.Sprintf("%x", new(big.Int).Add(big.NewInt(int64(atoi(a["seed"]))), new(big.Int).SetBytes(rng.Bytes(8))))
+		o := runNetSession(rng, n, sid, 6*time.Second, delays, sc.policy)
+		// a send that fails outright is retried 500 ms later by a goroutine that dies with the sender's
+		// session context; a sender that has finished by then never delivers it: the premise "every
+		// message delivered at least once" does not hold for that schedule, only safety is judged
+		oracle := judgeNet(rng, n, o, sc.name != "transient-send-failure")
+		fin := 0
+		for _, f := range o.finished {
+			if f {
+				fin++
+			}
+		}
+		return fmt.Sprintf("%s|%d|%d", oracle, fin, int(o.wall/time.Millisecond)/1000)
+	}
+	return "FAIL:harness:no such schedule|0|0"
+}
+
+func init() { SubRegistry["c04-net"] = subC04Net }
+
+func genC04Net(rng *hx.Rng, tier string, w *hx.Writer) {
+	reps := 1
+	if tier == "thorough" {
+		reps = 6
+	}
+	var jobs []*c12job
+	seed := 0
 	for rep := 0; rep < reps; rep++ {
-		for _, sc := range scheds {
+		for _, sc := range c04Scheds(rng) {
 			for _, n := range []int{3, 4} {
 				if tier == "quick" && n == 4 && sc.name != "plain" && sc.name != "every-message-twice" {
 					continue
 				}
-				var delays []time.Duration
-				if sc.delay != nil {
-					delays = sc.delay(n)
-				}
-				o := runNetSession(rng, n, nextSid(), 6*time.Second, delays, sc.policy)
-				// a send that fails outright is retried 500 ms later by a goroutine that dies with the sender's
-				// session context; a sender that has finished by then never delivers it: the premise "every
-				// message delivered at least once" does not hold for that schedule, only safety is judged
-				oracle := judgeNet(rng, n, o, sc.name != "transient-send-failure")
-				fin := 0
-				for _, f := range o.finished {
-					if f {
-						fin++
+				seed++
+				name := sc.name
+				arg := fmt.Sprintf("name=%s,n=%d,seed=%d", name, n, seed)
+				job := &c12job{sub: "c04-net", arg: arg, timeout: 60 * time.Second, group: "key-generation",
+					c: hx.Case{Entry: "-", Op: 0, Args: hx.L(hx.Zi(n), hx.B([]byte(name))), Tags: []string{"networked", "net-" + name, fmt.Sprintf("n%d", n), "nt"}}}
+				verdict := "ok"
+				job.finish = func(out string) (string, bool) {
+					parts := strings.Split(out, "|")
+					if len(parts) != 3 {
+						verdict = hx.Fail("harness", "unexpected scenario output: "+out)
+						return hx.B([]byte(out)), false
 					}
+					verdict = parts[0]
+					return hx.L(hx.Zi(atoi(parts[1])), hx.Zi(atoi(parts[2]))), parts[0] == "ok"
 				}
-				w.Put(hx.Case{Entry: "-", Op: 0, Args: hx.L(hx.Zi(n), hx.B([]byte(sc.name))),
-					Impl: hx.L(hx.Zi(fin), hx.Zi(int(o.wall/time.Millisecond)/1000)), Oracle: oracle,
-					Tags: []string{"networked", "net-" + sc.name, fmt.Sprintf("n%d", n), "nt"}})
+				job.explain = func(class, out, panicLine string) (string, string) {
+					sc := "driver sub c04-net " + arg
+					switch class {
+					case "P":
+						return "dkg-panic", "a key-generation goroutine panicked (" + sc + "): " + panicLine
+					case "H":
+						return "dkg-hang", "the networked sessions did not end (" + sc + ")"
+					}
+					v := strings.SplitN(strings.TrimPrefix(verdict, "FAIL:"), ":", 2)
+					if len(v) == 2 {
+						return v[0], v[1] + " (" + sc + ")"
+					}
+					return "dkg-net", verdict + " (" + sc + ")"
+				}
+				jobs = append(jobs, job)
 			}
 		}
 	}
+	runC12Jobs(jobs, w)
 }
